@@ -61,6 +61,8 @@ type decl struct {
 	Ingress string `json:"ingress"` // ns/name
 	Secret  string `json:"secret"`  // ns/name of the secret it resolves to; "" = none / forbidden
 	Raw     string `json:"raw"`     // secretName as written
+	// Forbidden: the reference names another namespace and the permission is deny
+	Forbidden bool `json:"forbidden,omitempty"`
 }
 
 type expectation struct {
@@ -82,7 +84,8 @@ type expectation struct {
 	Passthrough bool   `json:"passthrough,omitempty"`
 	Backend     string `json:"backend,omitempty"`
 	// CA: auth-tls: content hash of the ca.crt the crt-list line of the host must carry
-	CA string `json:"ca,omitempty"`
+	CA          string `json:"ca,omitempty"`
+	CAForbidden bool   `json:"ca_forbidden,omitempty"`
 	// Note: observations that are not failures
 	Note string `json:"note,omitempty"`
 }
@@ -92,7 +95,8 @@ type view struct {
 	c           *cluster
 	defContent  string // content label of the default certificate
 	defSecret   string
-	crossNS     bool
+	crossNS     bool // tls certificates may be read across namespaces (crt key / --allow-cross-namespace)
+	caCross     bool // CA bundles may be read across namespaces (ca key / --allow-cross-namespace)
 	ingsSorted  []op
 	ruleHosts   map[string]bool
 	httpsAlways map[string]bool
@@ -100,8 +104,8 @@ type view struct {
 	gateways    []op
 }
 
-func newView(c *cluster, defaultSecret string, crossNS bool) *view {
-	v := &view{c: c, crossNS: crossNS, defContent: fakeDefault, defSecret: defaultSecret, ruleHosts: map[string]bool{}, httpsAlways: map[string]bool{}}
+func newView(c *cluster, defaultSecret string, crtAllowed, caAllowed bool) *view {
+	v := &view{c: c, crossNS: crtAllowed, caCross: caAllowed, defContent: fakeDefault, defSecret: defaultSecret, ruleHosts: map[string]bool{}, httpsAlways: map[string]bool{}}
 	v.ingsSorted = c.ofKind("Ingress")
 	sort.SliceStable(v.ingsSorted, func(i, j int) bool {
 		a, b := v.ingsSorted[i], v.ingsSorted[j]
@@ -168,15 +172,21 @@ func (v *view) winner(host string) *decl {
 					continue
 				}
 				d := &decl{Ingress: ing.NS + "/" + ing.Name, Raw: b.Secret}
+				// the documented permission of tls secrets: cross-namespace-secrets-crt
+				ref := strings.TrimPrefix(b.Secret, "secret://")
 				switch {
 				case b.Secret == "":
-				case strings.Contains(b.Secret, "/"):
-					ns := b.Secret[:strings.Index(b.Secret, "/")]
+				case strings.Contains(ref, "://"):
+				case strings.Count(ref, "/") > 1:
+				case strings.Contains(ref, "/"):
+					ns := ref[:strings.Index(ref, "/")]
 					if ns == ing.NS || v.crossNS {
-						d.Secret = b.Secret
+						d.Secret = ref
+					} else {
+						d.Forbidden = true
 					}
 				default:
-					d.Secret = ing.NS + "/" + b.Secret
+					d.Secret = ing.NS + "/" + ref
 				}
 				return d
 			}
@@ -211,7 +221,7 @@ func (v *view) expect(name string) expectation {
 		e.Passthrough, e.Backend = true, b
 		e.Class = "passthrough"
 	} else if v.ruleHosts[name] || v.winner(name) != nil {
-		e.CA = v.caOf(name)
+		e.CA, e.CAForbidden = v.caOf(name)
 	}
 	return e
 }
@@ -302,13 +312,34 @@ func (v *view) passthrough(host string) (string, bool) {
 	return owner.NS + "_" + svc + "_" + port, true
 }
 
-// caOf: the content hash of the CA file of an auth-tls host.
-func (v *view) caOf(host string) string {
+// caOf: the content hash of the CA file of an auth-tls host ("" = none); forbidden = the
+// annotation names a CA secret of another namespace and cross-namespace-secrets-ca denies
+// it: the crt-list line of the host must carry no ca-file of it.
+func (v *view) caOf(host string) (ca string, forbidden bool) {
 	val, ing, ok := v.annOf(host, "auth-tls-secret")
-	if !ok || val != "ca-1" {
-		return ""
+	if !ok {
+		return "", false
 	}
-	return hashBytes(caSecret(ing.NS).Data["ca.crt"])
+	ns := ing.NS
+	if i := strings.Index(val, "/"); i >= 0 {
+		ns, val = val[:i], val[i+1:]
+	}
+	if val != "ca-1" || indexOfStrict(namespaces, ns) < 0 {
+		return "", false
+	}
+	if ns != ing.NS && !v.caCross {
+		return hashBytes(caSecret(ns).Data["ca.crt"]), true
+	}
+	return hashBytes(caSecret(ns).Data["ca.crt"]), false
+}
+
+func indexOfStrict(xs []string, x string) int {
+	for i, y := range xs {
+		if x == y {
+			return i
+		}
+	}
+	return -1
 }
 
 func hashBytes(b []byte) string {
